@@ -158,6 +158,9 @@ def module_devs(tkey, seed=0, spikes="all", opt8="all"):
         # all 8 words of a mapping record distinct (the 5 reserved words are stored and must come back in place)
         for i in (0, 7, 15):
             devs.append({"k": "mcmapx", "i": i, "v": [11, 22, 3, 44, 55, 66, 77, 88]})
+        # the (min, max, controller) triple still at its default, only the flags / reserved words set
+        devs.append({"k": "mcmapx", "i": 0, "v": [0, 0x8000, 0, 1, 0, 0, 0, 0]})
+        devs.append({"k": "mcmapx", "i": 15, "v": [0, 0x8000, 0, 0, 0, 0, 0, 9]})
     return devs
 
 
